@@ -137,6 +137,15 @@ def cases(tier, seed):
             out.append({"base": "boxes", "prog": [i, j, k]})
             out.append({"base": "box_loft", "prog": [k, j, i]})
     out = [c for c in out if ok(c["base"], c["prog"])]
+    # written, then the first operation deleted (the mesh is assembled again and its vertices renumbered), written again:
+    # the second file is that of the model without the operation
+    for i in idx:
+        if D[i][0] != "delete":
+            out.append({"base": "boxes", "prog": [i], "late_delete": 0})
+    for i, j in itertools.combinations(idx, 2):
+        kinds = {D[i][0], D[j][0]}
+        if "modify" in kinds and kinds & {"set_patch", "set_patch2"}:
+            out.append({"base": "boxes", "prog": [i, j], "late_delete": 0})
     # the built-in geometry of a sphere shape follows the shape: write, move the shape, clear(), write again
     for k in range(len(MOVES)):
         for redo in ("clear", "fresh_mesh"):
@@ -289,6 +298,10 @@ def run_program(case):
             decl.settings[st[1]] = str(st[2])
     path = os.path.join(runner.scratch_dir(), f"c06_{os.getpid()}")
     mesh.write(path, path + ".vtk")
+    if case.get("late_delete") is not None:
+        mesh.delete(ops[case["late_delete"]])
+        decl.deleted.add(case["late_delete"])
+        mesh.write(path, path + ".vtk")
     return mesh, ops, decl, open(path).read(), open(path + ".vtk").read()
 
 
